@@ -38,6 +38,64 @@ theorem leafHash_map_inj {H : HashFn} (hk : HashOK H) : ∀ {l l' : List Share},
         rw [share_ns_length (hl a (by simp)), share_ns_length (hl' a' (by simp))]
       exact (hashLeaf_inj hk hn (congrArg NsHash.hash h1)).2
 
+/-! ### Relative collision-freeness (audit repair): the inputs hashed for a row tree -/
+
+/-- inputs hashed when the verifier rebuilds the row tree from the received shares: the leaf preimages
+    `0x00 ‖ ns ‖ share` and the inner-node preimages -/
+def rowInputs (H : HashFn) (l : List Share) : List Bytes :=
+  l.map (fun sh => leafInput sh.ns sh.data) ++ rootInputs H true (l.length + 1) (l.map (Share.leafHash H))
+
+theorem allLeafOn_of_shares {H : HashFn} {S : Bytes → Prop} {l : List Share}
+    (h : ∀ sh ∈ l, NS_SIZE ≤ sh.data.length) (hS : ∀ sh ∈ l, S (leafInput sh.ns sh.data)) :
+    AllLeafOn H S (l.map (Share.leafHash H)) := by
+  intro x hx
+  obtain ⟨y, hy, rfl⟩ := List.mem_map.mp hx
+  exact ⟨y.ns, y.data, share_ns_length (h y hy), rfl, hS y hy⟩
+
+/-- equal leaf-hash lists have equal data, the hash being collision-free on the leaf preimages of both lists -/
+theorem leafHash_map_inj_on {H : HashFn} {S : Bytes → Prop} (hk : HashOKOn H S) : ∀ {l l' : List Share},
+    (∀ sh ∈ l, NS_SIZE ≤ sh.data.length) → (∀ sh ∈ l', NS_SIZE ≤ sh.data.length) →
+    (∀ sh ∈ l, S (leafInput sh.ns sh.data)) → (∀ sh ∈ l', S (leafInput sh.ns sh.data)) →
+    l.map (Share.leafHash H) = l'.map (Share.leafHash H) → l.map Share.data = l'.map Share.data := by
+  intro l
+  induction l with
+  | nil => intro l' _ _ _ _ h; cases l' with
+    | nil => rfl
+    | cons a t => simp at h
+  | cons a t ih =>
+    intro l' hl hl' hs hs' h
+    cases l' with
+    | nil => simp at h
+    | cons a' t' =>
+      simp only [List.map_cons, List.cons.injEq] at h ⊢
+      refine ⟨?_, ih (fun s hs => hl s (by simp [hs])) (fun s hs => hl' s (by simp [hs]))
+        (fun s h => hs s (by simp [h])) (fun s h => hs' s (by simp [h])) h.2⟩
+      have h1 := h.1
+      unfold Share.leafHash at h1
+      have hn : a.ns.length = a'.ns.length := by
+        rw [share_ns_length (hl a (by simp)), share_ns_length (hl' a' (by simp))]
+      exact (hashLeaf_inj_on hk.inj hn (hs a (by simp)) (hs' a' (by simp)) (congrArg NsHash.hash h1)).2
+
+/-! ### The codec properties the round trips need (audit repair: stated about the codec, not as the conclusion) -/
+
+/-- the row's bytes are a codeword of the systematic encoder `enc` (`k` data shards ↦ `k` parity shards): the second
+    half is the encoding of the first half.  (Same shape as `Lumina.Proofs.EdsLinear.IsCodeword`.) -/
+def RowCodeword (enc : List Bytes → List Bytes) (k : Nat) (cw : List Bytes) : Prop :=
+  cw.length = 2 * k ∧ cw.drop k = enc (cw.take k)
+
+/-- `leopard_codec::encode` as a function of the shard vector `Row::from_raw` passes: SYSTEMATIC — the first half of
+    the shards is kept, the second (zeroed) half is overwritten with `enc` of the first half -/
+def encodeCodec (enc : List Bytes → List Bytes) : List Bytes → CodecRes :=
+  fun l => .ok (l.take (l.length / 2) ++ enc (l.take (l.length / 2)))
+
+/-- `leopard_codec::reconstruct` as a total function on the shard vector -/
+def reconstructCodec (rec : List Bytes → List Bytes) : List Bytes → CodecRes := fun l => .ok (rec l)
+
+/-- the MDS property the right-half round trip needs: `rec` recovers every codeword of `enc` from its parity half
+    (the data half erased, i.e. replaced by empty shards) -/
+def RecoversFromRight (enc rec : List Bytes → List Bytes) (k : Nat) : Prop :=
+  ∀ cw, RowCodeword enc k cw → rec (List.replicate k [] ++ cw.drop k) = cw
+
 /-- `buildShares` gives back shares whose flags follow the quadrant rule and whose bytes are well-formed -/
 theorem buildShares_ok (i ds : Nat) : ∀ (l : List Share) (col : Nat),
     (∀ j sh, l[j]? = some sh → sh.data.length = SHARE_SIZE ∧
